@@ -379,6 +379,8 @@ def m_tuple(it, args, kw):
         return ()
     if isinstance(args[0], SSeq) and not z3.is_int_value(z3.simplify(to_int(args[0].length))):
         return args[0]
+    if type(args[0]).__name__ == "SFiltered" and getattr(args[0], "objects", False):
+        return args[0]  # tuple(<symbolic generator>): the same (lazy) sequence
     return tuple(it.iterate(args[0]))
 
 
